@@ -33,6 +33,8 @@
 #define GYD_YWD(x) S_ywd_gyd((int)(x).y, (int)(x).c, (int)(x).w)
 #define A_YWD(x) S_ywd_daisy((int)(x).y, (int)(x).c, (int)(x).w)
 /* valid ISO week date of a day inside the supported range (4095-W52-7 is 4096-01-01: outside) */
+/* ISO-valid week date with canonical hang, without the range condition on its Gregorian year */
+#define V_YWD0(x) (V_ywd((int)(x).y, (int)(x).c, (int)(x).w) && (int)(x).hang == S_HANG((int)(x).y) && ((x).u >> 25) == 0)
 #define V_YWD(x) (V_ywd((int)(x).y, (int)(x).c, (int)(x).w) && (int)(x).hang == S_HANG((int)(x).y) && ((x).u >> 25) == 0 && V_YEAR(GY_YWD(x)))
 
 /* day-number bases (independent constants: civil dates of the epochs)
